@@ -1369,6 +1369,9 @@ class Engine:
                 c = self.const_of(st, x)
                 if c is not None:
                     return [(st, Flt(("c", float(c))))]
+                obs = getattr(self, "i2f_observer", None)
+                if obs is not None:
+                    obs(st, x)
                 return [(st, Flt(("i2f", x.lin.key(), x.lin)))]
             if isinstance(x, Bool):
                 return [(st, Flt(("b2f", _ckey(x.c))))]
